@@ -201,7 +201,7 @@ def judgeTable (n : Nat) (out : List String) : Verdict :=
     let j := if known then
         sameSet t.startCodons (Spec.Ncbi.starts n) && sameSet t.stopCodons (Spec.Ncbi.stops n) && cellsOk && decide (WFTable t)
       else t == { startCodons := [], stopCodons := [], aminoAcids := [] }
-    { corr := corr, judge := if known then some j else none, cls := if known then "table/ncbi" else "triv:table/absent",
+    { corr := corr, judge := if known then some j else none, cls := if known then "table/ncbi" else if emptyTable t then "triv:table/absent" else "triv:table/extra-id-offered",
       detail := if corr && j then "" else showTable (getCodonTable n) }
   | _ => { corr := false, judge := if Spec.Ncbi.ids.contains n then some false else none, cls := "table/bad-reply" }
 
